@@ -198,7 +198,10 @@ class C09(Prop):
                 "C09_boundaries_strict_refuted", "C09_boundaries_strict_partial",
                 "C09_boundaries_strict_after_repair", "C09_quantile_recursion_depth", "C09_checker_sound",
                 "C09_quantitative_fit_never_fails_internally", "C09_quantitative_fit_buckets_frequent",
-                "C09_quantitative_checker_predicate_holds_on_model"]
+                "C09_quantitative_checker_predicate_holds_on_model",
+                "C09_quantile_bucket_bound_in_leaf", "C09_quantile_bucket_bound",
+                "C09_quantile_bucket_bound_2_5", "C09_quantile_bucket_bound_min_freq_refuted",
+                "C09_quantile_bucket_bound_min_freq_partial"]
     rule = ("one feature fitted by ContinuousDiscretizer / QuantitativeDiscretizer / "
             "QualitativeDiscretizer (ordinal or categorical) / Discretizer on 30-600 rows: numeric "
             "columns continuous, discrete, spiked, tied around the over-representation threshold "
